@@ -21,12 +21,14 @@ def run(ctx):
         for tr in build.ALL_TRIPLES:
             configs.append(("generic", tr, True))
     else:
-        # the three masked backends (x86-64 asm, C64 [also used by direct-xor/generic], C32) x all 27 triples,
-        # the two remaining plain backends with the default triple, checker build x {default, every D=1 triple subset}
+        # the three masked backends (x86-64 asm, C64, C32) x all 27 triples, checker build x {default, every D=1 triple subset}
         for be in ("asm", "c64", "c32"):
             for tr in build.ALL_TRIPLES:
                 configs.append((be, tr, False))
-        configs += [("dxor", D, False), ("generic", D, False), ("dxor", (2, 1, 2), False), ("generic", (3, 3, 3), False)]
+        # the direct-XOR and generic cores share the C64 masked words, but the masked-state conversions have branches of their own for them: every (key shares, data shares) pair
+        for be in ("dxor", "generic"):
+            for tr in [D] + [(k, d, k) for k in (2, 3, 4) for d in range(1, k + 1)]:
+                configs.append((be, tr, False))
         configs += [("generic", D, True), ("generic", (4, 1, 4), True), ("generic", (2, 2, 2), True), ("generic", (3, 3, 3), True), ("generic", (4, 4, 4), True), ("generic", (2, 1, 2), True)]
     # other compilers and optimisation levels (not a configuration option of the library, but the same sources must give the same bytes)
     for be in (("asm", "c64", "c32", "dxor", "generic") if ctx.thorough else ("asm", "c64", "c32", "generic")):
